@@ -253,6 +253,7 @@ class OpGen(object):
         kind = kind or rng.choice(kinds)
         root = dict(s.roots())[kind]
         self.cur_vars = []
+        self.var_counter = 0      # variable names are reused by the other operations of the document
         self.cur_frags = [] if kind != "subscription" else None
         if kind == "subscription":
             f = rng.choice(s.types[root].fields)
